@@ -126,6 +126,7 @@ struct C15 {
         if (last) {
           while (ex.mod.n() > 0) {
             ex.remove_last();
+            cnt(NV_TAIL)++;
             V.compare_barcode(ex, ":after_remove_last");
             V.after_boundary(ex, ":after_remove_last", true);
           }
